@@ -339,6 +339,10 @@ pub fn c13(c: &Case, rep: &mut Report) {
             let a = lin.get(fi).copied().unwrap_or(&empty);
             let b = lout.get(&fo).copied().unwrap_or(&empty);
             for (li, n) in a {
+                // with synthetic names on, an empty input name counts as no name (walrus documents that it skips those)
+                if synth && n.is_empty() {
+                    continue;
+                }
                 // unused locals are not emitted and may lose their name
                 if let Some(lo) = lmap.get(li) {
                     total_checked += 1;
@@ -352,7 +356,7 @@ pub fn c13(c: &Case, rep: &mut Report) {
             for (lo, m) in b {
                 let pre = rmap.get(lo);
                 let ok = pre.map(|li| a.iter().any(|(x, n)| x == li && n == m)).unwrap_or(false);
-                let unnamed_in_input = pre.map(|li| !a.iter().any(|(x, _)| x == li)).unwrap_or(false);
+                let unnamed_in_input = pre.map(|li| !a.iter().any(|(x, n)| x == li && !n.is_empty())).unwrap_or(false);
                 if !ok && !(synth && unnamed_in_input) {
                     rep.violation(c, "C13/local-name-migrated", &format!("{}: function out#{} local {} carries {:?}; its preimage is local {:?} of in#{}", label, fo, lo, m, pre, fi), &blob);
                 }
